@@ -281,6 +281,8 @@ class Interp:
                 for e in target.elts:
                     self.assign(e, Opaque(v.label + "[i]"))
                 return
+            if isinstance(v, (set, frozenset)):
+                v = list(v)
             if not isinstance(v, (tuple, list)) or len(v) != len(target.elts):
                 raise Unsupported(target, "(unpacking shape)")
             for e, x in zip(target.elts, v):
